@@ -33,8 +33,7 @@ ASSUME = [
     "the file system below the store's root behaves as a finite map path -> file | directory (os.makedirs, open, os.path.exists/getsize as modelled)",
     "one caller at a time (concurrency is C18's subject); the worker task completes before the call returns",
     "keys are relative paths of non-empty components without '.', '..' or empty components",
-    "cmem <= clen (process_contents never reports more than the serialised length) for the invariant theorem; true for FileCache, "
-    "a stated hypothesis for the DataFrame cache (see notes/C16.md, finding C16-table-mem-over-limit)",
+    "process_contents reports a non-negative size (it may exceed the serialised length and the limit: such contents are served uncached)",
     "pandas sort_index(kind='stable') is a stable sort and duplicated(keep='first') marks later equal index labels",
 ]
 
@@ -110,6 +109,38 @@ def generate():
         raise ShapeError("self.max_memory = max_memory or <const> not found")
     dm, why = astlib.try_flag(default_max)
     out.append("Definition default_max_src : Z := %s.%s" % (dm if dm is not None else "(-1)", "" if why is None else " (* %s *)" % why))
+
+    def ufm_fn():
+        m = astlib.module("klongpy/db/file_cache.py")
+        return astlib.find_func(astlib.find_class(m, "FileCache"), "update_file_futures_and_memory")
+
+    def oversize_uncached():
+        fn = ufm_fn()
+        asg = [n for n in ast.walk(fn) if isinstance(n, ast.Assign) and len(n.targets) == 1 and ast.unparse(n.targets[0]) == "can_cache"]
+        if len(asg) != 1:
+            raise ShapeError("one assignment to can_cache expected")
+        v = ast.unparse(asg[0].value)
+        if v == "self.recover_memory(memory_usage)":
+            return False
+        if v == "memory_usage <= self.max_memory and self.recover_memory(memory_usage)":
+            return True
+        raise ShapeError("can_cache = %s not recognised" % v)
+    flag("ufm_oversize_uncached", oversize_uncached)
+
+    def uncached_purges():
+        fn = ufm_fn()
+        ifs = [n for n in ast.walk(fn) if isinstance(n, ast.If) and ast.unparse(n.test) == "can_cache"]
+        if len(ifs) != 1:
+            raise ShapeError("one `if can_cache:` expected")
+        body = [ast.unparse(x) for x in ifs[0].orelse]
+        if body == ["del self.file_futures[file_name]"]:
+            return False
+        if body == ["del self.file_futures[file_name]",
+                    "self.file_access_times = [(t, fn) for t, fn in self.file_access_times if fn != file_name]",
+                    "heapq.heapify(self.file_access_times)"]:
+            return True
+        raise ShapeError("not-cached branch not recognised: %r" % body)
+    flag("ufm_uncached_purges", uncached_purges)
 
     df = astlib.module("klongpy/db/df_cache.py")
 
@@ -680,6 +711,11 @@ def check_dfcache(chk, rng, workdir, dirsize):
             root = os.path.join(workdir, "d%d" % j)
             os.makedirs(root)
             mx = rng.choice([max(lens), max(lens) + min(mems), sum(mems), 10 ** 7, min(lens) + 50, sorted(lens)[2]])
+            # focus: a limit between the pickle length and the memory of the string frame, where two mid-size frames fit
+            # but three do not: overwriting a cached key with contents that are served uncached, then evicting
+            focus = rng.random() < 0.35 and mems[3] > lens[1] + 1
+            if focus:
+                mx = rng.randint(max(lens[1], lens[3]), mems[3] - 1)
             fc = PandasDataFrameCache(max_memory=mx, root_path=root)
             fc.executor.shutdown(wait=True)
             fc.executor = LazyExecutor()
@@ -688,15 +724,35 @@ def check_dfcache(chk, rng, workdir, dirsize):
                 return by_bytes.get(serialize_df(df), -1)
             ops, recs = [], []
             t = 10
-            for i in range(rng.randint(3, 10 if chk.tier == "quick" else 20)):
+            # corpus template (regression of the repaired finding d346f94): a cached key is overwritten by contents that
+            # are served uncached, then three mid-size frames on other keys force an eviction; random ops are mixed in
+            script = None
+            if focus and j % 3 == 0:
+                ks = rng.sample(keys, 4)
+                script = [("set", ks[0], 1), ("set", ks[0], 3), ("set", ks[1], 1), ("set", ks[2], 1), ("set", ks[3], 1),
+                          ("get", ks[0], None), ("get", ks[1], None)]
+                for _ in range(rng.randint(0, 2)):
+                    script.insert(rng.randint(2, len(script)), None)
+            nops = len(script) if script is not None else rng.randint(3, 10 if chk.tier == "quick" else 20)
+            for i in range(nops):
                 t += rng.randint(0, 3)
                 clock.plan([t])
                 hq.popped = []
                 r = rng.random()
                 key = rng.choice(keys)
+                forced = script[i] if script is not None else None
+                if forced is not None:
+                    key = forced[1]
+                    r = 0.0 if forced[0] == "set" else 0.5
                 try:
+                    if focus and forced is None:
+                        r = r * 0.75 if r < 0.9 else r          # mostly sets and gets
                     if r < 0.45:
                         fi = rng.randrange(len(frames))
+                        if focus and rng.random() < 0.85:
+                            fi = 1 if rng.random() < 0.65 else 3
+                        if forced is not None:
+                            fi = forced[2]
                         ops.append(["set", key_to_name(key), [fi + 1, lens[fi], mems[fi]], t, []])
                         fc.update_file(key, ser[fi])
                         res = ["set"]
@@ -732,6 +788,27 @@ def check_dfcache(chk, rng, workdir, dirsize):
     for (mx, ops, recs), mout in zip(runs, outs):
         chk.count("evaluations", len(recs))
         chk.count("dfcache_sequences")
+        if any(o[0] == "set" and o[2][2] > mx >= o[2][1] for o in ops):
+            chk.count("dfcache_sequences_served_uncached")
+        # dictionary oracle at the FileCache level: update_file / get_file of frames (MemoryError when the pickle exceeds the limit)
+        dd, cur = {}, mx
+        for i, (o, (res, st, acct)) in enumerate(zip(ops, recs)):
+            want = None
+            if o[0] == "set":
+                want = ["set"] if o[2][1] <= cur else ["err", 5]
+                if want == ["set"]:
+                    dd[tuple(o[1])] = (o[2][0], o[2][1])
+            elif o[0] == "get":
+                if tuple(o[1]) in dd:
+                    fid, ln = dd[tuple(o[1])]
+                    want = ["val", fid] if ln <= cur else ["err", 5]
+                else:
+                    want = ["err", 1]
+            elif o[0] == "reopen":
+                cur = o[1]
+            if want is not None and res != want and bad_prop is None:
+                bad_prop = {"kind": "dfcache", "max_memory": mx, "ops": ops, "failing_op": i,
+                            "what": "DataFrame cache as a dictionary: operation %d %s returned %r, expected %r" % (i, o[0], res, want)}
         over = any(o[0] == "set" and o[2][2] > mx >= o[2][1] for o in ops)
         if over:
             chk.count("dfcache_sequences_mem_over_limit")
@@ -740,7 +817,7 @@ def check_dfcache(chk, rng, workdir, dirsize):
             mres2 = [mres[0]] if mres[0] in ("set", "none") else list(mres)
             if mres2 and mres2[0] == "err" and mres2[1] == 1:
                 mres2 = ["err", 1]
-            if not acct and not over and bad_prop is None:
+            if not acct and bad_prop is None:
                 bad_prop = {"kind": "dfcache", "max_memory": mx, "ops": ops, "failing_op": i,
                             "what": "cache accounting: current_memory_usage=%s entries=%s" % (st[0], st[1])}
             if (res != mres2 or st != model_state(mstate)) and bad_corr is None:
@@ -785,7 +862,10 @@ def check_tables(chk, rng, workdir, dirsize):
             root = os.path.join(workdir, "t%d" % j)
             os.makedirs(root)
             small = rng.random() < 0.4
+            with_str = small and rng.random() < 0.5      # a string column: DataFrame memory far above the pickle length
             mx = rng.choice([1100, 1300, 2400]) if small else 10 ** 9
+            if with_str:
+                mx = rng.choice([1500, 2500, 4000])
             ts = open_ts(root, mx)
             d = {}
             ops, recs = [], []
@@ -805,7 +885,10 @@ def check_tables(chk, rng, workdir, dirsize):
                         for _ in range(n):
                             serial += 1
                             rows.append((rng.randint(0, hi), serial))
-                        df = pd.DataFrame({"v": [v for _, v in rows]}, index=[i_ for i_, _ in rows])
+                        cols = {"v": [v for _, v in rows]}
+                        if with_str:
+                            cols["s"] = ["abc%d" % v for _, v in rows]
+                        df = pd.DataFrame(cols, index=[i_ for i_, _ in rows])
                         clock.plan([t, t + 1])
                         ops.append(["set", key_to_name(key), ["rows"] + [[a, b] for a, b in rows], t, t + 1])
                         k["ts"] = ts
@@ -813,7 +896,7 @@ def check_tables(chk, rng, workdir, dirsize):
                         k('ts,"%s",,tb' % key)
                         d[key] = py_merge(d.get(key, []), rows)
                         res = ["set"]
-                    elif r < 0.9:
+                    elif r < 0.85:
                         clock.plan([t])
                         ops.append(["get", key_to_name(key), t])
                         k["ts"] = ts
@@ -831,6 +914,10 @@ def check_tables(chk, rng, workdir, dirsize):
                             elif rows != d[key]:
                                 fail = "table %s: stored rows differ from the documented merge (existing rows win on equal index): got %s, want %s" % (
                                     key, rows[:12], d[key][:12])
+                    elif r < 0.95:
+                        ts.cache.unload_file(key)
+                        ops.append(["unload", key_to_name(key)])
+                        res = ["none"]
                     else:
                         nmx = mx
                         ops.append(["reopen", nmx])
@@ -944,16 +1031,14 @@ def run(tier, replay=None):
             elif impl_shows != model_predicts:
                 bad_corrs.append(dict(describe_seq(seq, runner), what="prefix-key witness: model and implementation disagree",
                                       impl=[r["res"] for r in recs], model=str(m)[:300]))
-            # known finding: in-memory size over the limit while the serialised length fits
+            # regression of the repaired finding C16-table-mem-over-limit: a table larger in memory than the limit
             res3, (ln, mem, mx3), stuck = witness_mem_over_limit(workdir)
             m3 = chk.run_model([sx(["kvs", 1, dirsize, mx3, [["set", [112], [1, ln, mem], 1, []], ["get", [112], 2, []], ["set", [112], [2, 600, 100], 3, []]]])])[0]
-            model3 = [list(x[0]) for x in m3] == [["err", 6]] * 3
-            impl3 = res3 == [["err", 6]] * 3 and stuck == [("p", True)]
-            rep3 = {"kind": "tables", "what": "TableStorage(max_memory=%d); set of a table with pickle length %d and DataFrame memory %d; get; set" % (mx3, ln, mem),
-                    "impl": res3, "stuck_entries": stuck}
-            if impl3 and model3:
-                chk.finding("C16-table-mem-over-limit", "table larger in memory than the limit leaves its key unusable", rep3)
-            elif impl3 != model3:
+            rep3 = {"kind": "tables", "what": "TableStorage(max_memory=%d); set of a table with pickle length %d and DataFrame memory %d; get; set: %r, entries left writing %r"
+                                             % (mx3, ln, mem, res3, stuck), "impl": res3, "stuck_entries": stuck}
+            if res3 != [["ok"]] * 3 or stuck:
+                bad_props.append(rep3)
+            if [x[0][0] for x in m3] != ["set", "val", "set"]:
                 bad_corrs.append(dict(rep3, kind="mem-over-limit witness", model=str(m3)[:300]))
             bp, bk, bc = check_kvs(chk, rng, runner, catches, dirsize)
         finally:
